@@ -111,6 +111,12 @@ def extra_scenarios(tier):
         ("insert/exception-cut-inside", sc("ins", False, True, 2, [], [(1, "info"), (2, "exc")], cut="(1 t)")),
         ("select/cut-before-0-close-reports-error", sc("sel", False, False, 0, [], [(1, "data", "ok"), (1, "end")], cut="(0 f)", flags=("cle",))),
         ("insert/write-fault-1-partial-close-reports-error", sc("ins", False, True, 2, [], [(1, "info"), (4, "end")], wf="(1 t)", flags=("cle",))),
+        # two faults in one run: the server's exception is readable while a later client Write is still to fail (the
+        # sender has passed its context check and sits in conn.Write when the receiver returns the exception) (C04E)
+        ("insert/exception-at-1-after-2-chunks-write-fault-2-partial", sc("ins", False, True, 2, [], [(1, "info"), (2, "exc")], wf="(2 t)")),
+        ("insert/exception-at-1-after-1-chunks-write-fault-3-nothing", sc("ins", False, True, 2, [], [(1, "info"), (1, "exc")], wf="(3 f)")),
+        ("insert-stream/exception-at-1-after-3-chunks-write-fault-3-partial", sc("str", False, True, 2, ["ok", "eof"], [(1, "info"), (3, "exc")], wf="(3 t)")),
+        ("select/exception-at-0-after-0-chunks-write-fault-0-partial", sc("sel", False, False, 0, [], [(0, "exc")], wf="(0 t)")),
     ]
     if tier == "thorough":
         out += [
